@@ -503,6 +503,7 @@ def run(ctx):
                    "2.11, 3.3.3) - no escaper that leaves them literal can do better; everything "
                    "else must be read back exactly",
                    "on an exact .5 tie either neighbouring second is accepted"]
+    coverage["rule"] += ("; texts built from the string literals of text_utils' own source (XML-legal ones)")
     return {"part": part, "coverage": coverage, "assumptions": assumptions}
 
 
